@@ -111,6 +111,30 @@ ReqChecks(f) ==
         f.twinKnown /\ f.twinCompiles, f.compiles),
     Chk("C13", "twins agree on rejection too", f.twinKnown /\ ~f.twinCompiles, ~f.compiles) }
 
+(***************************************************************************)
+(* C20: what the shipped GDB pretty-printer shows == what the API reports  *)
+(***************************************************************************)
+GdbCont(g, p) ==
+  { Chk("C20", "printer registered for the container type", TRUE, g.printer),
+    Chk("C20", "printed length = size()", g.printer, g.len = p.sz),
+    Chk("C20", "printed capacity = capacity()", g.printer, g.cap = p.cap),
+    Chk("C20", "printed elements = iteration order", g.printer, g.elems = [i \in 1..Len(p.e) |-> p.e[i][1]]),
+    Chk("C20", "natvis member paths resolve to size / capacity / first element / inline capacity", g.printer,
+        /\ g.natvis.ok /\ g.natvis.m_size = p.sz /\ g.natvis.m_capacity = p.cap
+        /\ g.natvis.inline_capacity_v = p.icap
+        /\ (p.sz > 0 => g.natvis.first = p.e[1][1])
+        /\ ((g.natvis.m_capacity = g.natvis.inline_capacity_v) <=> p.inl)) }
+
+GdbIter(g, idx, pA) ==
+  { Chk("C20", "iterator printed as the element it refers to", idx >= 0 /\ pA.p,
+        g.printer /\ g.m_ptr /\ g.value = pA.e[idx + 1][1]),
+    Chk("C20", "value-initialised iterator reported as non-dereferenceable", idx < 0,
+        g.printer /\ g.text = "non-dereferenceable iterator for gch::small_vector") }
+
+GdbChecks(f) ==
+  (IF f.pA.p THEN GdbCont(f.gA, f.pA) ELSE {}) \cup (IF f.pB.p THEN GdbCont(f.gB, f.pB) ELSE {})
+  \cup GdbIter(f.it, f.it_index, f.pA) \cup GdbIter(f.cit, f.it_index, f.pA)
+
 CompileChecks(f) ==
   { Chk(f.prop, f.what, TRUE, f.compiles) }
 
@@ -133,6 +157,7 @@ Step ==
               [] f.t = "convptr" -> ConvPtrChecks(f)
               [] f.t = "req" -> ReqChecks(f)
               [] f.t = "compile" -> CompileChecks(f)
+              [] f.t = "gdbview" -> GdbChecks(f)
               [] OTHER -> {})
   /\ l' = l + 1
 Finish == l = Len(Facts) + 1 /\ PrintT(<<"END", Len(Facts)>>) /\ l' = l + 1
